@@ -192,6 +192,11 @@ def replay(case, acc):
           case.get('origin', 'replay'))
 
 
+from harness.shrink import text_shrinker  # noqa: E402
+shrink = text_shrinker(replay, 'text')
+
+
+
 CONFIGS = [(k, og, sf) for k in ('min', 'min_ds', 'indent') for og in (False, True) for sf in (False, True)]
 
 
